@@ -420,6 +420,13 @@ func (p *c09) Run(w *lib.Worker, idx int, r *lib.Rand) lib.Case {
 
 	c := lib.Case{Hash: lib.Hash64(badText), Nontrivial: true, Evals: 3}
 	c.Tags = []string{"plant:" + pl.kind, "chain:" + strings.Join(pl.chain, ">"), fmt.Sprintf("continue:%v", cfg.Continue), boolTag("suffix-skipped", pl.skipped), boolTag("format-leaf-under-alternative-registry", fmtLeaf), "leaf:" + leafKind}
+	var underDefault *sut.SpecOutcome
+	if fmtLeaf {
+		// the same document under strfmt.Default first: the planted format is unknown there and must not be asserted
+		// (and having been asked about that name must not influence the caller-supplied registry afterwards)
+		o := sut.ValidateSpecWith(badText, cfg, strfmt.Default)
+		underDefault = &o
+	}
 	base, good, badO := sut.ValidateSpecWith(baseText, cfg, formats), sut.ValidateSpecWith(goodText, cfg, formats), sut.ValidateSpecWith(badText, cfg, formats)
 	sample := map[string]any{"where": pl.where, "kind": pl.kind, "chain": pl.chain, "bad_value": bad, "document_with_bad_value": string(badText), "config": fmt.Sprintf("%+v", cfg)}
 	if idx%100 == 0 {
@@ -461,6 +468,11 @@ func (p *c09) Run(w *lib.Worker, idx int, r *lib.Rand) lib.Case {
 			return c
 		}
 		c.Viol = &lib.Violation{What: fmt.Sprintf("%s [%s at %s, chain %s, %+v] doc=%s", what, pl.kind, pl.where, strings.Join(pl.chain, ">"), cfg, badText), Detail: sample}
+		return c
+	}
+	if underDefault != nil && base.Valid && !pl.skipped && (underDefault.Panic != "" || !underDefault.Valid) {
+		sample["under_strfmt_Default"] = *underDefault
+		c.Viol = &lib.Violation{What: fmt.Sprintf("a format which the supplied registry (strfmt.Default) does not know was asserted: errors=%v panic=%q doc=%s", underDefault.Errors, underDefault.Panic, badText), Detail: sample}
 		return c
 	}
 	// the same judgement from a validator object which has validated other documents before
